@@ -11,13 +11,13 @@ use bincode::Options;
 use serde::{de::DeserializeOwned, Serialize};
 
 #[derive(Clone)]
-struct C { rev: bool, chunk: usize, threads: usize, comp: Option<u32>, tmp: bool, ty: String, xs: Vec<SItem> }
+struct C { rev: bool, chunk: usize, threads: usize, comp: Option<u32>, tmp: bool, ty: String, border: u64, xs: Vec<SItem> }
 
 fn enc(c: &C) -> Vec<String> {
     let mut w = W::new();
     w.flag(c.rev).n(c.chunk).n(c.threads);
     match c.comp { None => { w.n(0); } Some(l) => { w.n(1).n(l); } }
-    w.flag(c.tmp).s(&c.ty).n(c.xs.len());
+    w.flag(c.tmp).s(&c.ty).n(c.border).n(c.xs.len());
     for x in &c.xs { put_sitem(&mut w, x); }
     w.0
 }
@@ -25,9 +25,9 @@ fn dec(t: &[String]) -> Option<C> {
     let mut r = R::new(t);
     let rev = r.flag()?; let chunk = r.usize()?; let threads = r.usize()?;
     let comp = if r.u64()? != 0 { Some(r.u64()? as u32) } else { None };
-    let tmp = r.flag()?; let ty = r.tok()?.to_string();
+    let tmp = r.flag()?; let ty = r.tok()?.to_string(); let border = r.u64()?;
     let xs = r.list(get_sitem)?;
-    Some(C { rev, chunk, threads, comp, tmp, ty, xs })
+    Some(C { rev, chunk, threads, comp, tmp, ty, border, xs })
 }
 fn n_chunks(c: &C) -> usize { if c.chunk <= 1 { c.xs.len() } else { c.xs.len().div_ceil(c.chunk) } }
 fn valid(c: &C) -> bool { c.threads >= 1 && n_chunks(c) <= 200 }
@@ -43,15 +43,22 @@ pub fn rec_key<B: BEDLike>(b: &B) -> Vec<u64> {
 static CASE_NO: std::sync::atomic::AtomicUsize = std::sync::atomic::AtomicUsize::new(0);
 
 fn builder(c: &C) -> (ExternalSorterBuilder, Option<std::path::PathBuf>) {
-    let mut b = ExternalSorterBuilder::new().with_chunk_size(c.chunk).num_threads(c.threads);
-    if let Some(l) = c.comp { b = b.with_compression(l); }
     let mut dir = None;
     if c.tmp {
         let base = std::env::var("VERIF_DIR").unwrap_or_else(|_| "/verif".into());
         let d = std::path::PathBuf::from(base).join(format!("harness/run/sort-{}-{}", std::process::id(), CASE_NO.fetch_add(1, std::sync::atomic::Ordering::SeqCst)));
         std::fs::create_dir_all(&d).ok();
-        b = b.with_tmp_dir(&d);
         dir = Some(d);
+    }
+    // setters applied in the order given by the case: the configuration must not depend on it
+    let mut b = ExternalSorterBuilder::new();
+    for k in permutation4(c.border) {
+        b = match k {
+            0 => b.with_chunk_size(c.chunk),
+            1 => b.num_threads(c.threads),
+            2 => if let Some(l) = c.comp { b.with_compression(l) } else { b },
+            _ => if let Some(d) = &dir { b.with_tmp_dir(d) } else { b },
+        };
     }
     (b, dir)
 }
@@ -169,12 +176,12 @@ fn gen(rng: &mut Rng, tier: Tier) -> Vec<Case> {
                     let n = (k as i64 * c.max(1) as i64 + d).max(0) as usize;
                     if n > 300 { continue; }
                     let shape = rng.below(6);
-                    push("boundary", C { rev: rng.chance(1, 4), chunk: c, threads: *rng.pick(&threads), comp: *rng.pick(&comps), tmp: rng.chance(1, 2), ty: "kv".into(), xs: kv(rng, n, shape) });
+                    push("boundary", C { rev: rng.chance(1, 4), chunk: c, threads: *rng.pick(&threads), comp: *rng.pick(&comps), tmp: rng.chance(1, 2), ty: "kv".into(), border: rng.below(24), xs: kv(rng, n, shape) });
                 }
             }
         }
         for n in [0usize, 1, 2, 5, 50] {
-            for c in [n, n + 1, 1_000_000] { let shape = rng.below(6); push("boundary", C { rev: false, chunk: c, threads: *rng.pick(&threads), comp: *rng.pick(&comps), tmp: rng.chance(1, 2), ty: "kv".into(), xs: kv(rng, n, shape) }); }
+            for c in [n, n + 1, 1_000_000] { let shape = rng.below(6); push("boundary", C { rev: false, chunk: c, threads: *rng.pick(&threads), comp: *rng.pick(&comps), tmp: rng.chance(1, 2), ty: "kv".into(), border: rng.below(24), xs: kv(rng, n, shape) }); }
         }
     }
     let nr = match tier { Tier::Quick => 120, Tier::Thorough => 1500 };
@@ -184,14 +191,14 @@ fn gen(rng: &mut Rng, tier: Tier) -> Vec<Case> {
         let chunk = match rng.below(4) { 0 => (n / 3).max(2), 1 => n.max(2), 2 => 1000, _ => rng.range(2, 60) as usize };
         let shape = rng.below(6);
         let xs = if ty == "kv" { kv(rng, n, shape) } else { real_items(rng, ty, n) };
-        push("random", C { rev: rng.chance(1, 4), chunk, threads: *rng.pick(&threads), comp: *rng.pick(&comps), tmp: rng.chance(1, 2), ty: ty.into(), xs });
+        push("random", C { rev: rng.chance(1, 4), chunk, threads: *rng.pick(&threads), comp: *rng.pick(&comps), tmp: rng.chance(1, 2), ty: ty.into(), border: rng.below(24), xs });
     }
     if tier == Tier::Thorough {
         // large enough for par_sort_unstable_by to take its parallel path
         // (rayon's parallel quicksort starts above 2000 elements; the model's run formation is quadratic in the chunk size)
         for (n, chunk) in [(30_000usize, 5_000usize), (24_000, 12_000), (9_000, 3_000)] {
             let xs: Vec<SItem> = (0..n).map(|i| (vec![rng.below(5000)], (i as u32).to_be_bytes().to_vec())).collect();
-            push("large", C { rev: false, chunk, threads: 8, comp: Some(1), tmp: true, ty: "kv".into(), xs });
+            push("large", C { rev: false, chunk, threads: 8, comp: Some(1), tmp: true, ty: "kv".into(), border: 5, xs });
         }
     }
     out
